@@ -83,7 +83,10 @@ def rules_case(draw):
                                       ['not', ['nextgen', ['name', 'r'], 'r', ['name', 'receipts'], ['cmp', ['attr', 'r', 'amount'], [['>', ['num', 10 ** 9]]]], None]],
                                       # a row has no such column: subscripting it is an error (not None), as is subscripting an empty source
                                       ['cmp', ['sub', ['sub', ['name', 'orders'], ['num', 0]], ['str', 'nosuchcolumn']], [['!=', ['str', 'cancelled']]]],
-                                      ['not', ['sub', ['sub', ['name', 'receipts'], ['num', -1]], ['str', 'Status']]]]))
+                                      ['not', ['sub', ['sub', ['name', 'receipts'], ['num', -1]], ['str', 'Status']]],
+                                      # a list comprehension whose condition cannot be evaluated for a row fails as a whole (rows are not silently dropped)
+                                      ['and', [['cmp', ['len', ['listcomp', ['name', 'r'], 'r', ['name', 'orders'], ['cmp', ['attr', 'r', 'item'], [['>', ['num', 5]]]]]], [['==', ['num', 0]]]],
+                                               ['cmp', ['len', ['name', 'orders']], [['>', ['num', 0]]]]]]]))
             rs.insert(draw(st.integers(0, len(rs))), {'name': 'Never Evaluable', 'match': m, 'category': draw(st.sampled_from(['', 'NeverCat'])), 'subcategory': '', 'merchant': None,
                                                      'priority': None, 'tags': ['never-evaluable'], 'lets': [], 'fields': []})
             continue
